@@ -74,6 +74,29 @@ def collect(h):
     else:
         raise h.Missing(f"{rel}: newFilter has a shape the model does not cover")
     items.append(("acl_rule_clones_fields", "bool", "true" if clones else "false", rel + " newFilter"))
+    # VSQL compiler: the operations GRANT ALL / REVOKE ALL ON TABLE stand for (C13-F9)
+    rel = "pkg/parser/const.go"
+    opnum = {n: i for i, n in enumerate(names)}
+
+    def oplist(var, required):
+        mm = re.search(r"^var " + var + r"\s*=\s*\[\]appdef\.OperationKind\{(.*?)\n\}", h.src(rel), re.M | re.S)
+        if not mm:
+            if required:
+                raise h.Missing(f"{rel}: cannot locate {var}")
+            return None
+        oo = re.findall(r"appdef\.(OperationKind_\w+)", mm.group(1))
+        if not oo or any(o not in opnum for o in oo):
+            raise h.Missing(f"{rel}: {var}: unknown operation in {oo}")
+        return "[" + "; ".join(str(opnum[o]) for o in oo) + "]"
+    tbl = oplist("grantAllToTableOps", True)
+    cols = oplist("grantAllColumnsToTableOps", False)
+    bsrc = h.func_body("pkg/parser/impl_build.go", r"^func applyGrantOrRevokeRule\(", "applyGrantOrRevokeRule")
+    if "write(grantAllToTableOps, flt, fields" not in bsrc or "g.Table.All.columns" not in bsrc:
+        raise h.Missing("pkg/parser/impl_build.go: applyGrantOrRevokeRule no longer writes ALL through grantAllToTableOps")
+    if cols is not None and not re.search(r"len\(g\.Table\.All\.columns\)\s*>\s*0\s*\{\s*write\(grantAllColumnsToTableOps", bsrc):
+        raise h.Missing("pkg/parser/impl_build.go: grantAllColumnsToTableOps is not used for ALL(columns)")
+    items.append(("parser_all_table_ops", "list N", "(%s)%%N" % tbl, rel + " grantAllToTableOps"))
+    items.append(("parser_all_columns_table_ops", "list N", "(%s)%%N" % (cols or tbl), rel + " grantAllColumnsToTableOps (or grantAllToTableOps)"))
     # system fields recognised by IsSysField (the harness numbers them 0..4 in this order)
     rel = "pkg/appdef/utils_field.go"
     fb = h.func_body(rel, r"^func IsSysField\(", "IsSysField")
